@@ -1,0 +1,36 @@
+//go:build verif
+
+// Contracts for the verifier in /verif (comment-only file; compiled only with -tags verif).
+
+package tls
+
+// C21 / C12: the compressed certificate is recovered exactly. The decompressors are abstract byte
+// streams (see /verif/contracts/trusted/readers.vc): rdtotal(id) bytes, ending cleanly or with an error.
+// `exact` is the property: the certificate message is accepted only if the decompressed stream has
+// exactly the declared number of bytes (neither shorter nor longer), whatever the reader returns per call;
+// `advertised`: only for an algorithm the client offered; `complete`: a well-formed stream of the declared
+// length is not rejected by decompressCert itself.
+// (*Conn).sendAlert (upstream, conn.go) is not verified: every alert other than close_notify yields a
+// non-nil error (setErrorLocked of a *net.OpError). No modifies clause: callers treat it as havocking the heap.
+//@ trusted func (*Conn).sendAlert
+//@   ensures err != alertCloseNotify ==> ret != nil
+
+//@ spec advertisedAlg(algs, a) = exists i in 0..len(algs): algs[i] == a
+//@ func (*clientHandshakeStateTLS13).decompressCert
+//@   property C21 C12 C33
+//@   let L = m.uncompressedLength
+//@   let algs = hs.uconn.certCompressionAlgs
+//@   requires hs != nil && hs.uconn != nil && hs.c != nil
+//@   requires ulen: L <= 16777215
+//@   note ulen is guaranteed by utlsCompressedCertificateMsg.unmarshal (ReadUint24); beyond it uint32(L)+4 wraps
+//@   assume-pure unmarshal Error
+//@   ensures advertised: ret1 == nil ==> advertisedAlg(algs, m.algorithm)
+//@   ensures unadvertised: !advertisedAlg(algs, m.algorithm) ==> ret0 == nil && ret1 != nil
+//@   ensures exact: ret1 == nil ==> rdtotal(val(callarg(io.ReadFull, 0, 0))) == L
+//@   ensures parsed: ret1 == nil ==> ret0 != nil && callres(unmarshal, 0)
+//@   ensures either: ret0 == nil || ret1 == nil
+//@   at before call io.ReadFull#0: assert whole: len(arg1) == L
+//@   at before call io.ReadFull#1: assert same_reader: arg0 == callarg(io.ReadFull, 0, 0) && len(arg1) == 1
+//@   at before call unmarshal#0: assert framing: len(arg1) == L + 4 && arg1[0] == 11 && arg1[1]*65536 + arg1[2]*256 + arg1[3] == L
+//@   loop 0 invariant -1 <= $rangeindex && $rangeindex < len(algs)
+//@   loop 0 invariant supportedAlg <==> exists i in 0..$k: algs[i] == m.algorithm
